@@ -181,6 +181,9 @@ def dfs(harness, params, roots, bound, st, max_exec=None, deadline=None, known=(
             stack.extend(children(ex, bound))
 
 
+_T0 = time.time()
+
+
 def explore(harness, param_list, bound, max_exec_per_param=None, deadline=None, jobs=None, budget_s=None):
     """explore every params in param_list to the deviation bound, in parallel.
     budget_s: wall-clock budget; when it runs out the exploration stops and reports capped (exhaustive false).
@@ -188,8 +191,13 @@ def explore(harness, param_list, bound, max_exec_per_param=None, deadline=None, 
     if budget_s is None and deadline is None:
         # no exploration runs without a wall-clock limit: on a loaded machine a thorough-tier exploration ends as "capped"
         # (exhaustive false in the evidence, what was covered is reported) instead of tripping the pool watchdog
-        budget_s = float(os.environ.get("VERIF_EXPLORE_BUDGET", "2400"))
+        budget_s = float(os.environ.get("VERIF_EXPLORE_BUDGET", "1500"))
     if budget_s is not None:
+        deadline = time.time() + budget_s
+    # ... and the whole check process has one too (well inside the timeout of the registered command)
+    left = _T0 + float(os.environ.get("VERIF_CHECK_BUDGET", "9000")) - time.time()
+    if deadline is None or deadline - time.time() > left:
+        budget_s = max(30.0, left)
         deadline = time.time() + budget_s
     pool_timeout = 3000 if budget_s is None else budget_s + 900
     jobs = jobs or ncpu()
